@@ -70,6 +70,9 @@ PROBES = [
     ('probe:octal-escape-in-single-quoted-string', "P('\\101');"),
     ('probe:big-U-escape-in-single-quoted-string', "P('\\U0001F600');"),
     ('probe:bell-backspace-formfeed-escapes', "P('\\a\\b\\f\\v');"),
+    ('probe:aggregated-field-before-rest', 'Q(a:, b? += x, ..r) distinct :- T(a:, x:, ..r);'),
+    ('probe:only-aggregated-fields-before-rest', 'Q(b? Max= x, c? += 1, ..r) distinct :- T(x:, ..r);'),
+    ('probe:positional-then-rest', 'Q(x, y, ..r) :- T(x, y, ..r), R(..r);'),
     ('probe:line-break-in-single-quoted-string', "P('a\nb');"),
 ]
 
